@@ -440,6 +440,27 @@ func OOrderOrReal(w *World) error {
 
 // ---- copy -------------------------------------------------------------------------------------
 
+// c17CopyWorld: coll 0 = the default digester; 1 = the keys of the source collide on the first digest level (one
+// inline collision group); 2 = they collide on every level (digest-less list).
+func c17CopyWorld(T uint32, coll int) *World {
+	w := NewWorld(T)
+	if coll == 0 {
+		w.KeyOf = KeyOfDefault
+		return w
+	}
+	w.Digests = NewDigestTable()
+	w.KeyOf = func(n int) MV { return Scalar{uint64(n)} }
+	for k := 0; k < 4; k++ {
+		d := [4]uint64{7, uint64(k) + 1, 1, 1}
+		if coll == 2 {
+			d = [4]uint64{7, 7, 7, 7}
+		}
+		w.Digests.Table[uint64(k)] = d
+	}
+	w.Digests.Table[50] = [4]uint64{9, 1, 1, 1}
+	return w
+}
+
 func c17Copy(a c17Arg, res *TaskResult) {
 	elemKinds := []string{"t", "s:t", "limA+", "s:limA+", "A:t", "s:A:t", "mid"}
 	plain := map[string]bool{"t": true, "s:t": true, "mid": true}
@@ -460,12 +481,26 @@ func c17Copy(a c17Arg, res *TaskResult) {
 		if si%a.Shards != a.Shard {
 			continue
 		}
-		for _, isMap := range []bool{false, true} {
+		for _, kind := range []int{-1, 0, 1, 2} { // -1: array; maps with the three digest assignments
+			isMap, coll := kind >= 0, kind
+			if !isMap {
+				coll = 0
+			}
+			if coll > 0 && len(seq) < 2 {
+				continue
+			}
 			for _, inlined := range []bool{false, true} {
+				if inlined && coll > 0 {
+					// the library's structural check of a parent judges a nested map's digests with the default
+					// digester: colliding sources are copied as top-level containers only
+					continue
+				}
 				res.Evals++
-				w := NewWorld(a.T)
-				w.KeyOf = KeyOfDefault
+				w := c17CopyWorld(a.T, coll)
 				what := fmt.Sprintf("copy of %s [%s] inlined=%v", map[bool]string{false: "array", true: "map"}[isMap], strings.Join(seq, " "), inlined)
+				if coll > 0 {
+					what += fmt.Sprintf(" colliding keys (mode %d)", coll)
+				}
 				src, err := w.NewCont(isMap, w.Addr, 42, false)
 				if err != nil {
 					res.Viols = append(res.Viols, what+": "+err.Error())
@@ -507,6 +542,10 @@ func c17Copy(a c17Arg, res *TaskResult) {
 					can, single = src.Map.CanCopyNonRefSimple(), src.Map.IsWithinSingleSlab()
 				} else {
 					can, single = src.Arr.CanCopyNonRefSimple(), src.Arr.IsWithinSingleSlab()
+				}
+				if coll > 0 && w.St.Deltas() != 1 {
+					// a collision group that moved to a slab of its own: the map is one data slab holding a reference
+					single = false
 				}
 				want := single && allPlain
 				if can != want {
@@ -564,7 +603,7 @@ func c17Copy(a c17Arg, res *TaskResult) {
 						// replay on a fresh copy of this scenario is expensive; apply and undo is not
 						// possible, so each mutation runs on its own world built the same way
 						res.Evals++
-						if msg := c17CopyMutation(a.T, isMap, inlined, seq, side == src.Serial, mu); msg != "" {
+						if msg := c17CopyMutation(a.T, isMap, coll, inlined, seq, side == src.Serial, mu); msg != "" {
 							res.Viols = append(res.Viols, what+" then "+mu.String()+": "+msg)
 						}
 					}
@@ -577,9 +616,8 @@ func c17Copy(a c17Arg, res *TaskResult) {
 
 // c17CopyMutation rebuilds source+copy, applies one mutation to one side, and checks that the
 // other side's content and registers are unchanged and everything stays valid.
-func c17CopyMutation(T uint32, isMap, inlined bool, seq []string, onSource bool, mu Op) string {
-	w := NewWorld(T)
-	w.KeyOf = KeyOfDefault
+func c17CopyMutation(T uint32, isMap bool, coll int, inlined bool, seq []string, onSource bool, mu Op) string {
+	w := c17CopyWorld(T, coll)
 	src, err := w.NewCont(isMap, w.Addr, 42, false)
 	if err != nil {
 		return err.Error()
